@@ -20,6 +20,7 @@ type FuncResult struct {
 	Err      string
 	Contract *Contract
 	Called   []string
+	Port     bool
 }
 
 // verifyFunc builds the obligations of one function.
@@ -41,6 +42,13 @@ func verifyFunc(prog *Program, cs *ContractSet, full string, c *Contract, kfs []
 		x.verifyLemma(c, res)
 	} else {
 		fn := prog.findFunc(c.Pkg, c.Key)
+		if fn == nil && prog.isInterfaceMethod(c.Pkg, c.Key) {
+			// port contract: an interface method has no body; the contract is assumed at
+			// call sites and listed in the trusted base (implementations are verified
+			// separately where a contract with the same clauses is given for them).
+			res.Port = true
+			return
+		}
 		if fn == nil {
 			res.Err = fmt.Sprintf("contract names function %s which does not exist (contract-shape drift)", full)
 			return
